@@ -446,10 +446,16 @@ class AutoSerialize:
             subgroup.attrs["_numpy_rng"] = True
             # Get state from the bit_generator
             rng_state = value.bit_generator.state
-            if hasattr(rng_state, "tolist"):
-                subgroup.attrs["_rng_state"] = rng_state.tolist()
-            else:
-                subgroup.attrs["_rng_state"] = rng_state
+
+            def _jsonable(x):
+                # MT19937 / Philox / SFC64 states hold numpy arrays and numpy integers
+                if isinstance(x, dict):
+                    return {k: _jsonable(v) for k, v in x.items()}
+                if hasattr(x, "tolist"):
+                    return x.tolist()
+                return x
+
+            subgroup.attrs["_rng_state"] = _jsonable(rng_state)
             subgroup.attrs["_rng_type"] = value.__class__.__name__
             subgroup.attrs["_bit_generator_type"] = value.bit_generator.__class__.__name__
 
